@@ -3,7 +3,7 @@
 tier="$1"; shift
 cd "$(dirname "$0")/.."
 for seed in "$@"; do
-  for p in C01 C02 C03 C04 C05 C06 C07 C08 C09 C10 C11 C12 C13 C14 C15 C16 C17 C18 C19; do
+  for p in ${CHECKS:-C01 C02 C03 C04 C05 C06 C07 C08 C09 C10 C11 C12 C13 C14 C15 C16 C17 C18 C19}; do
     out=$(VERIF_SEED=$seed VERIF_OUT_DIR=/tmp/vsweep-out ${PYTHONHASHSEED:+PYTHONHASHSEED=$PYTHONHASHSEED} ./vcheck $p --tier $tier 2>&1)
     rc=$?
     echo "seed=$seed $p rc=$rc $(echo "$out" | grep -E '^\[' | cut -c1-110)"
